@@ -261,7 +261,7 @@ func c15RunOpt(run *ev.Run, u *uni.U, origins []string, wans, dans []string, war
 			sv = append(sv, saved{l.wans, l.dans, l.cp})
 			l.wans, l.dans, l.cp = "valid", "200", l.valid
 		}
-		if err := d.DistributeOnce(context.Background()); err != nil {
+		if err := c15Once(run, d); err != nil {
 			run.Report("warm-round-failed", fmt.Sprintf("a round in which every log is valid and the distributor answers 200 failed: %v", err), nil)
 		}
 		for i, l := range logs {
@@ -269,7 +269,7 @@ func c15RunOpt(run *ev.Run, u *uni.U, origins []string, wans, dans []string, war
 		}
 		tr.puts, tr.all = nil, nil
 	}
-	derr := d.DistributeOnce(context.Background())
+	derr := c15Once(run, d)
 
 	rep := map[string]any{"kind": "distribute", "origins": origins, "witness_answers": wans, "distributor_answers": dans, "after_a_valid_round": warm, "witness_name_with_slash": wk.Name == u.W4.Name, "log_keys_named_like_the_witness": namesake, "base_url_with_path": basePrefix != ""}
 	desc := func(s string) string {
@@ -362,7 +362,7 @@ func c15RunOpt(run *ev.Run, u *uni.U, origins []string, wans, dans []string, war
 		l.wans, l.dans, l.cp = "valid", "200", l.valid
 	}
 	tr.puts, tr.all = nil, nil
-	nerr := d.DistributeOnce(context.Background())
+	nerr := c15Once(run, d)
 	run.Add("following_valid_rounds", 1)
 	if nerr != nil {
 		run.Report("next-round-failed after="+failShape(wans, dans), desc(fmt.Sprintf("the following round, in which every log is valid and the distributor answers 200, failed: %v", nerr)), rep)
@@ -527,5 +527,20 @@ func c15(tier string) int {
 	run.Set("distributor_answer_menu", c15DistAnswers)
 	run.Set("rule", fmt.Sprintf("the real Distributor.DistributeOnce with a scripted witness and an in-process stub distributor (RoundTripper): ALL assignments of (witness answer x distributor answer) for 1 and 2 logs, each also as the second polling round of a Distributor whose first round was entirely valid; for 3..6 logs all assignments with at most %d logs (1-2 for 5-6 logs) deviating from (valid, 200) at every position. For 1 and 2 logs every assignment also with a witness key whose name contains a slash (the path names it in one escaped segment), with log keys that carry the witness key's NAME, and with a distributor base URL that has a path component (every PUT stays below it). Oracle: exactly one PUT per log whose witness answer is valid, at /distributor/v0/logs/<id>/byWitness/<witness key name>/checkpoint, body byte-identical to what the witness reported; no PUT for any other log; every log attempted regardless of earlier failures; error iff some log failed, with the right count; then one more round on the same Distributor in which everything is valid: every log pushed exactly once, exact bytes, no error. The two unusual valid shapes (70 KiB of extension lines; unknown signature lines around the witness line) are combined with distributor answers 200, 500 and body-left-unread only. distinct_nontrivial = distinct assignments", k))
 	run.Assumption("a checkpoint carrying a second, foreign witness signature is outside the property's claim and is not judged; a connection error is modelled as failing before the request body is read")
+	// Through the real binary: the HTTP client cmd/omniwitness builds.
+	c15Binary(run)
 	return run.Finish()
+}
+
+// c15Once is DistributeOnce with a panic of the code under test reported (a
+// transport error or an odd answer 'counts as a failure for that log only' -
+// a panic ends the round for every log) and turned into the round's error.
+func c15Once(run *ev.Run, d *rest.Distributor) (err error) {
+	defer func() {
+		if p := recover(); p != nil {
+			run.Report("distribute-round-panics", fmt.Sprintf("DistributeOnce panicked: %v", p), map[string]any{"kind": "distribute-panic"})
+			err = fmt.Errorf("DistributeOnce panicked: %v", p)
+		}
+	}()
+	return d.DistributeOnce(context.Background())
 }
